@@ -332,7 +332,9 @@ class USBInTransferManager(Elaboratable):
                     m.next = "WAIT_FOR_DATA"
 
                 # If the host does ACK...
-                with m.Elif(self.handshakes_in.ack):
+                # (Handshakes carry no address: only count an ACK while the last token we've seen is
+                # still our IN token; otherwise this is the host acknowledging someone else's data.)
+                with m.Elif(self.handshakes_in.ack & self.active & self.tokenizer.is_in):
                     # ... clear the data we've sent from our buffer.
                     m.d.usb += read_fill_count.eq(0)
 
